@@ -160,6 +160,8 @@ def build(spec, perm=None, slots=None, strpool=None):
             return r.randbytes(size)
         if kind == "zeros":
             return bytes(size)
+        if kind == "ab":
+            return "ab" * (size // 2)
         if kind == "str":
             return "".join(r.choice("abcdefghij \né") for _ in range(size))
         if kind == "list":
